@@ -304,11 +304,18 @@ def setter_field(fx, q, fallback=None):
 class OnlyRules:
     """a view of a Run that records the outcomes of the named rules only (to share one clause of another property's rule set)"""
 
-    def __init__(self, run, rules, rename=None):
-        self._run, self._rules, self._rename = run, set(rules), rename or {}
+    def __init__(self, run, rules, rename=None, soft=False):
+        # soft: a shared rule that does not recognise a shape is the OWNING property's analysis-broken; here it is only noted
+        self._run, self._rules, self._rename, self._soft = run, set(rules), rename or {}, soft
 
     def __getattr__(self, name):
         return getattr(self._run, name)
+
+    def __setattr__(self, name, value):
+        if name in ('_run', '_rules', '_rename', '_soft'):
+            object.__setattr__(self, name, value)
+        else:
+            setattr(self._run, name, value)          # caches (the VM model, the effect analysis) and the configuration tag live on the real run
 
     def held(self, rule, *a, **k):
         if rule in self._rules:
@@ -316,8 +323,38 @@ class OnlyRules:
 
     def violated(self, rule, *a, **k):
         if rule in self._rules:
+            inst = a[0] if a else k.get('inst')
+            if inst in _known_instances():
+                return                  # a recorded finding belongs to the property it is recorded for (known_findings.json), not to the one that shares the rule
             self._run.violated(self._rename.get(rule, rule), *a, **k)
 
     def broken(self, rule, *a, **k):
         if rule in self._rules:
-            self._run.broken(self._rename.get(rule, rule), *a, **k)
+            if self._soft:
+                self._run.observe('shared rule %s could not decide here (decided, or reported as analysis-broken, by the property that owns it): %s' % (rule, ' '.join(str(x) for x in a)[:300]))
+            else:
+                self._run.broken(self._rename.get(rule, rule), *a, **k)
+
+
+def _known_instances():
+    import json, os
+    if not hasattr(_known_instances, 'v'):
+        p = os.path.join(os.path.dirname(os.path.dirname(os.path.abspath(__file__))), 'known_findings.json')
+        try:
+            _known_instances.v = {f['instance'] for f in json.load(open(p)).get('findings', [])}
+        except Exception:
+            _known_instances.v = set()
+    return _known_instances.v
+
+
+def share(run, module, rules, rename_to, why=''):
+    """run another property's rule set through a filter that keeps only the named rules, under one of this property's own rule ids; a
+    shape the shared rule does not recognise is noted, not reported (soft)"""
+    import importlib
+    from .facts import AnalysisBroken
+    m = importlib.import_module('rules.' + module)
+    view = OnlyRules(run, rules, {r: rename_to for r in rules}, soft=True)
+    try:
+        m.run(view)
+    except AnalysisBroken as ex:
+        run.observe('shared rules %s of %s could not be evaluated here: %s' % (sorted(rules), module, ex))
